@@ -12,4 +12,8 @@ CASES = [
     dict(expect="fire", desc="epoch not aware", names="Z", edits=[dict(file=CON,
          old="UTC_ZERO = datetime.fromtimestamp(0, tz=timezone.utc)", new="UTC_ZERO = datetime.utcfromtimestamp(0)")]),
     dict(expect="silent", desc="to_datetime: value + UTC_ZERO", edits=[dict(file=SCH, old="value = UTC_ZERO + value", new="value = value + UTC_ZERO")]),
+    dict(expect="fire", desc="seed C36/1: to_datetime relabels aware datetimes", names="Z3-no-relabel", edits=[dict(file="reactivex/scheduler/scheduler.py",
+         old="            value = UTC_ZERO + value", new="            value = (UTC_ZERO + value).replace(tzinfo=timezone.utc)")]),
+    dict(expect="fire", desc="seed C36/3: epoch constant built from a naive literal in the local zone", names="Z2-epoch", edits=[dict(file="reactivex/internal/constants.py",
+         old="UTC_ZERO = datetime.fromtimestamp(0, tz=timezone.utc)", new="UTC_ZERO = datetime(1970, 1, 1).astimezone(timezone.utc)")]),
 ]
